@@ -44,6 +44,9 @@ def fail(node, why):
 BUILTINS = {"len", "ord", "min", "max", "isinstance"}            # PyMini.builtin
 EXNS = {"IndexError": "IndexError", "TypeError": "TypeError", "ValueError": "ValueError",
         "AttributeError": "AttributeError", "KeyError": "KeyError", "Exception": "ExcOther"}
+# exception classes of pygls (imported from pygls.exceptions): ExcUser "<name>"
+USER_EXNS = {"ValidationError", "FeatureAlreadyRegisteredError", "CommandAlreadyRegisteredError",
+             "ThreadDecoratorError", "MethodTypeNotRegisteredError"}
 BINOPS = {ast.Add: "Add", ast.Sub: "Sub", ast.Mult: "Mult"}
 CMPOPS = {ast.Eq: "Eq", ast.NotEq: "NotEq", ast.Lt: "Lt", ast.LtE: "LtE", ast.Gt: "Gt", ast.GtE: "GtE",
           ast.Is: "Is", ast.IsNot: "IsNot", ast.In: "CmpIn", ast.NotIn: "CmpNotIn"}
@@ -98,9 +101,9 @@ def lift_nested(fn, cls):
         if isinstance(g, ast.AsyncFunctionDef) or g.decorator_list:
             fail(g, "nested async / decorated definition")
         a = g.args
-        if a.args or a.posonlyargs or a.kwonlyargs or a.defaults or a.kw_defaults:
-            fail(g, "nested definition with parameters other than *args / **kwargs")
-        own = [x.arg for x in (a.vararg, a.kwarg) if x is not None]
+        if a.posonlyargs or a.kwonlyargs or a.defaults or a.kw_defaults:
+            fail(g, "nested definition with defaults / positional-only / keyword-only parameters")
+        own = [x.arg for x in a.args] + [x.arg for x in (a.vararg, a.kwarg) if x is not None]
         inner_stores = {n.id for n in ast.walk(g) if isinstance(n, ast.Name) and isinstance(n.ctx, (ast.Store, ast.Del))}
         for n in ast.walk(g):
             if n is not g and isinstance(n, (ast.FunctionDef, ast.AsyncFunctionDef, ast.Lambda, ast.ClassDef,
@@ -205,7 +208,7 @@ class FunctionTranslator:
                             self.props.add(n.name)
                         elif isinstance(d, ast.Attribute) and d.attr in ("setter", "deleter", "getter"):
                             raise TranslateError(f"line {n.lineno}: property setter / deleter in the class")
-        self.kind = kind or function_kind(fn, in_class, bool(self.effects))
+        self.kind = kind or function_kind(fn, in_class, bool(self.effects) or bool(self.opts.get("stateful")))
         self.receiver = fn.args.args[0].arg if (in_class and fn.args.args) else None
         self.stringio = self._stringio_locals(fn)
         if self.receiver == "self":
@@ -216,7 +219,7 @@ class FunctionTranslator:
     # -- scoping: the names the function binds (CPython's rule: any binding occurrence) --------
     def _locals(self, fn):
         a = fn.args
-        params = [p.arg for p in a.args]
+        params = [p.arg for p in a.args] + [p.arg for p in a.kwonlyargs]
         for node in ast.walk(fn):
             if node is fn:
                 continue
@@ -301,8 +304,8 @@ class FunctionTranslator:
         a = fn.args
         if isinstance(fn, ast.AsyncFunctionDef):
             fail(fn, "async def")
-        if a.posonlyargs or a.vararg or a.kwonlyargs or a.kwarg or a.kw_defaults:
-            fail(fn, "parameter kinds other than plain positional-or-keyword")
+        if a.posonlyargs or a.vararg or a.kwarg:
+            fail(fn, "parameter kinds other than positional-or-keyword and keyword-only")
         kind = self.kind
         if len(fn.decorator_list) > 1:
             fail(fn, "more than one decorator")
@@ -328,11 +331,24 @@ class FunctionTranslator:
                     self.globals_ok(d.id, d)          # a module-level object (evaluated at definition time)
                     params.append(f"({cstr(p.arg)}, Some (EGlobal {cstr(d.id)}))")
                     continue
+                if isinstance(d, ast.Attribute) and isinstance(d.value, ast.Name) and d.value.id not in self.locals:
+                    self.globals_ok(d.value.id, d.value)     # Module.NAME, evaluated at definition time
+                    params.append(f"({cstr(p.arg)}, Some (EAttr (EGlobal {cstr(d.value.id)}) {cstr(d.attr)}))")
+                    continue
                 if not isinstance(d, ast.Constant):
                     fail(d, "default value that is not a constant or a module-level name")
                 params.append(f"({cstr(p.arg)}, Some {self.expr(d)})")
             else:
                 params.append(f"({cstr(p.arg)}, None)")
+        # keyword-only parameters: bound by keyword like the others (a positional argument for one of them
+        # is a TypeError in Python and is not rejected here: the theorems pass them by keyword)
+        for p, d in zip(a.kwonlyargs, a.kw_defaults):
+            if d is None:
+                params.append(f"({cstr(p.arg)}, None)")
+            elif isinstance(d, ast.Constant):
+                params.append(f"({cstr(p.arg)}, Some {self.expr(d)})")
+            else:
+                fail(d, "default of a keyword-only parameter that is not a constant")
         if want and "Some" in params[0]:
             fail(fn, "receiver with a default")
         return kind, params
@@ -428,6 +444,10 @@ class FunctionTranslator:
             if not isinstance(e.ctx, ast.Load):
                 fail(e, "tuple in a non-load context")
             return f"(ETuple {clist([E(x) for x in e.elts])})"
+        if isinstance(e, ast.Dict):
+            if any(k is None for k in e.keys):
+                fail(e, "** in a dict display")
+            return f"(EDict {clist([f'({E(k)}, {E(v)})' for k, v in zip(e.keys, e.values)])})"
         if isinstance(e, ClosureMarker):
             return f"(EClosure {clist([cstr(x) for x in e.q])} {clist([cstr(x) for x in e.captured])})"
         if isinstance(e, ast.JoinedStr):
@@ -472,11 +492,19 @@ class FunctionTranslator:
         # getattr(obj, "name") / getattr(obj, "name", default)
         if isinstance(f, ast.Name) and f.id == "getattr" and f.id not in self.locals and f.id not in scope:
             self.globals_ok("getattr", f)
-            if e.keywords or len(e.args) not in (2, 3) or not (
-                    isinstance(e.args[1], ast.Constant) and isinstance(e.args[1].value, str)):
+            consts = self.opts.get("constants", {})
+            a1 = e.args[1] if len(e.args) >= 2 else None
+            if isinstance(a1, ast.Name) and a1.id in consts and a1.id not in self.locals and a1.id not in scope:
+                self.globals_ok(a1.id, a1)        # a str constant of pygls.constants, value asserted by reflection
+                name = consts[a1.id]
+            elif isinstance(a1, ast.Constant) and isinstance(a1.value, str):
+                name = a1.value
+            else:
+                name = None
+            if e.keywords or len(e.args) not in (2, 3) or name is None:
                 fail(e, "getattr() is supported only with a constant attribute name")
             d = f"(Some {E(e.args[2])})" if len(e.args) == 3 else "None"
-            return f"(EGetattr {E(e.args[0])} {cstr(e.args[1].value)} {d})"
+            return f"(EGetattr {E(e.args[0])} {cstr(name)} {d})"
         if isinstance(f, ast.Attribute) and isinstance(f.value, ast.Name):
             if f.value.id == "self" and self.receiver == "self" and self.kinds.get(f.attr) == "KProcedure":
                 fail(e, f"self.{f.attr}(..) never returns a value: supported only as a statement")
@@ -484,6 +512,8 @@ class FunctionTranslator:
                 fail(e, "call of a property")
             if f.value.id in self.stringio and f.attr != "getvalue":
                 fail(e, "StringIO.write(..) is supported only as a statement")
+        if isinstance(f, ast.Name) and f.id in self.opts.get("effect_functions", ()) and f.id not in self.locals:
+            fail(e, f"{f.id}(..) changes its arguments: supported only as a statement / `x = {f.id}(..)`")
         if isinstance(f, ast.Name):
             if f.id in self.locals or f.id in scope:
                 fail(e, "call of a local name")
@@ -552,6 +582,22 @@ class FunctionTranslator:
                 if self.kind not in ("KProcedure", "KStateful"):
                     fail(s, "recorded call in a function whose run does not yield self")
                 return f"SCallbackEffect {E(v.func)} {E(v.args[0].value)} {E(v.keywords[0].value)}"
+        # ---- functions outside the translation that change their arguments (objects with identity): recorded
+        gfx = self.opts.get("effect_functions", ())
+        def gcall(v):
+            if (isinstance(v, ast.Call) and isinstance(v.func, ast.Name) and v.func.id in gfx
+                    and v.func.id not in self.locals):
+                if v.keywords or any(isinstance(a, ast.Starred) for a in v.args):
+                    fail(v, "keywords / *args in a recorded call")
+                if self.kind not in ("KProcedure", "KStateful"):
+                    fail(v, "recorded call in a function whose run does not yield self")
+                self.globals_ok(v.func.id, v.func)
+                return f"{cstr(v.func.id)} {clist([E(a) for a in v.args])}"
+            return None
+        if isinstance(s, ast.Expr) and gcall(s.value):
+            return f"SGlobalEffect None {gcall(s.value)}"
+        if isinstance(s, ast.Assign) and len(s.targets) == 1 and isinstance(s.targets[0], ast.Name) and gcall(s.value):
+            return f"SGlobalEffect (Some {self.local(s.targets[0].id)}) {gcall(s.value)}"
         # ---- dict attributes of self
         if isinstance(s, ast.Assign) and len(s.targets) == 1 and isinstance(s.targets[0], ast.Subscript):
             t = s.targets[0]
@@ -559,10 +605,40 @@ class FunctionTranslator:
                     and self.receiver == "self" and t.value.attr in self.dicts and not isinstance(t.slice, ast.Slice)
                     and self.kind in ("KProcedure", "KStateful")):
                 return f"SSelfItemSet {cstr(t.value.attr)} {E(t.slice)} {E(s.value)}"
+        def self_item(t):
+            """self.<D>[key] with D a dict attribute -> (D, key expr)"""
+            if (isinstance(t, ast.Subscript) and isinstance(t.value, ast.Attribute) and isinstance(t.value.value, ast.Name)
+                    and t.value.value.id == "self" and self.receiver == "self" and t.value.attr in self.dicts
+                    and not isinstance(t.slice, (ast.Slice, ast.Tuple)) and self.kind in ("KProcedure", "KStateful")):
+                return t.value.attr, t.slice
+            return None
+        if isinstance(s, ast.Delete) and len(s.targets) == 1 and self_item(s.targets[0]):
+            d, k = self_item(s.targets[0])
+            return f"SSelfItemDel {cstr(d)} {E(k)}"
+        if isinstance(s, ast.Expr) and isinstance(s.value, ast.Call) and isinstance(s.value.func, ast.Attribute) \
+                and self_item(s.value.func.value):
+            v = s.value
+            if v.keywords or any(isinstance(a, ast.Starred) for a in v.args):
+                fail(s, "keywords / *args in a call on a dict item")
+            d, k = self_item(v.func.value)
+            return f"SSelfItemCall {cstr(d)} {E(k)} {cstr(v.func.attr)} {clist([E(a) for a in v.args])}"
+        if isinstance(s, ast.Assign) and len(s.targets) == 1 and isinstance(s.targets[0], ast.Attribute) \
+                and self_item(s.targets[0].value):
+            d, k = self_item(s.targets[0].value)
+            return f"SSelfItemSetAttr {cstr(d)} {E(k)} {cstr(s.targets[0].attr)} {E(s.value)}"
+        if isinstance(s, ast.AnnAssign) and s.value is not None and isinstance(s.target, ast.Attribute):
+            # `self.x: T = v`: the annotation of an attribute target is not evaluated into anything observable
+            s2 = ast.Assign(targets=[s.target], value=s.value)
+            s2.lineno = s.lineno
+            return self.stmt(s2, ind)
+        if isinstance(s, ast.For) and isinstance(s.target, ast.Name):
+            if s.orelse:
+                fail(s, "for ... else")
+            return f"SFor {self.local(s.target.id)} {E(s.iter)} {self.block(s.body, ind + 2)}"
         if isinstance(s, ast.Expr) and isinstance(s.value, ast.Call) and isinstance(s.value.func, ast.Attribute):
             f = s.value.func
             if (isinstance(f.value, ast.Attribute) and isinstance(f.value.value, ast.Name) and f.value.value.id == "self"
-                    and self.receiver == "self" and f.value.attr in self.dicts and f.attr == "setdefault"
+                    and self.receiver == "self" and f.value.attr in self.dicts and f.attr in ("setdefault", "pop")
                     and not s.value.keywords and not any(isinstance(a, ast.Starred) for a in s.value.args)
                     and self.kind in ("KProcedure", "KStateful")):
                 return f"SSelfFieldCall {cstr(f.value.attr)} {cstr(f.attr)} {clist([E(a) for a in s.value.args])}"
@@ -647,6 +723,10 @@ class FunctionTranslator:
                     and x.func.id not in self.locals and not x.keywords:
                 self.globals_ok(x.func.id, x.func)
                 return f"SRaise {EXNS[x.func.id]} {clist([E(a) for a in x.args])}"
+            if isinstance(x, ast.Call) and isinstance(x.func, ast.Name) and x.func.id in USER_EXNS \
+                    and x.func.id not in self.locals and not x.keywords:
+                self.globals_ok(x.func.id, x.func)
+                return f"SRaise (ExcUser {cstr(x.func.id)}) {clist([E(a) for a in x.args])}"
             fail(s, "raise of something other than a builtin exception class call")
         if isinstance(s, ast.Try):
             if s.orelse or s.finalbody:
@@ -661,7 +741,8 @@ class FunctionTranslator:
                     if not (isinstance(t, ast.Name) and t.id in EXNS and t.id not in self.locals):
                         fail(h, "exception class outside the table")
                     self.globals_ok(t.id, t)
-                    ks.append(EXNS[t.id])
+                    # `except Exception` catches every exception the embedding has
+                    ks.append("ExcAny" if t.id == "Exception" else EXNS[t.id])
                 hs.append(f"({clist(ks)}, {self.block(h.body, ind + 4)})")
             return f"STry {self.block(s.body, ind + 2)} {clist(hs)}"
         fail(s, "statement outside the supported subset")
@@ -786,7 +867,7 @@ def translate_module(modname, functions, global_table, out_name, reflect_checks,
                 fail(node, f"base class {base}: its __init__ is not among the translated functions")
             return
         b = binds.get(name)
-        if name in BUILTINS or name in ("sum", "getattr", "super", "enumerate") or name in EXNS:
+        if name in BUILTINS or name in ("sum", "getattr", "super", "enumerate", "next", "type") or name in EXNS:
             if b is not None:
                 fail(node, f"builtin {name} is rebound at module level")
             return
@@ -804,7 +885,7 @@ def translate_module(modname, functions, global_table, out_name, reflect_checks,
         if not ok(b):
             fail(node, f"global name {name!r} is bound to {b!r}, not to what the table expects")
 
-    stateful = bool((opts or {}).get("effects"))
+    stateful = bool((opts or {}).get("effects")) or bool((opts or {}).get("stateful"))
     kinds = {}
     for cls, name in functions:
         fn = find_function(tree, cls, name)
@@ -1109,8 +1190,118 @@ def gen_progress():
         raise
 
 
+# ----------------------------------------------------------------------------------------------
+# (F) workspace/workspace.py   (update_notebook_document is NOT translated: it mutates objects through
+#     aliases - `notebook = self._notebook_documents[uri]; notebook.version = ..`, the index dict nb_cells -
+#     and PyMini has values, not references)
+
+def _reflect_workspace():
+    import copy, inspect
+    m = importlib.import_module("pygls.workspace.workspace")
+    td = importlib.import_module("pygls.workspace.text_document").TextDocument
+    pc = importlib.import_module("pygls.workspace.position_codec").PositionCodec
+    t = importlib.import_module("lsprotocol.types")
+    if m.copy is not copy or m.TextDocument is not td or m.PositionCodec is not pc:
+        raise TranslateError("copy / TextDocument / PositionCodec are not the expected objects")
+    sig = inspect.signature(td.__init__)
+    names = list(sig.parameters)[1:]
+    if names != ["uri", "source", "version", "language_id", "local", "sync_kind", "position_codec"]:
+        raise TranslateError(f"TextDocument.__init__ parameters are {names}")
+    d = {k: p.default for k, p in sig.parameters.items()}
+    if not (d["source"] is None and d["version"] is None and d["language_id"] is None and d["local"] is True
+            and d["sync_kind"] is t.TextDocumentSyncKind.Incremental and d["position_codec"] is None
+            and d["uri"] is inspect.Parameter.empty):
+        raise TranslateError("defaults of TextDocument.__init__ are not those of PyMini.ctor_default")
+    if list(inspect.signature(pc.__init__).parameters)[1:] != ["encoding"]:
+        raise TranslateError("PositionCodec.__init__ parameters")
+    x = td("file:///x", source="s", version=3)
+    if x.uri != "file:///x" or x.version != 3 or x.source != "s" or x.language_id is not None:
+        raise TranslateError("TextDocument does not keep its constructor arguments")
+
+
+WORKSPACE_FUNCTIONS = [("Workspace", n) for n in (
+    "__init__", "_create_text_document", "add_folder", "remove_folder", "get_text_document",
+    "get_notebook_document", "put_text_document", "remove_text_document", "put_notebook_document",
+    "remove_notebook_document", "update_text_document")]
+
+
+def gen_workspace():
+    imp = lambda mod: (lambda b: b == ("import", mod, None))
+    try:
+        return translate_module(
+            "pygls.workspace.workspace", WORKSPACE_FUNCTIONS,
+            {"copy": imp("copy"), "types": _is_from("lsprotocol", "types"),
+             "TextDocument": _is_from("pygls.workspace.text_document", "TextDocument"),
+             "PositionCodec": _is_from("pygls.workspace.position_codec", "PositionCodec"),
+             "TextDocumentSyncKind": _is_from("lsprotocol.types", "TextDocumentSyncKind"),
+             "PositionEncodingKind": _is_from("lsprotocol.types", "PositionEncodingKind"),
+             # pygls.uris functions: not linked here, oracles of the __init__ theorem
+             "uri_scheme": _is_from("pygls.uris", "uri_scheme"), "to_fs_path": _is_from("pygls.uris", "to_fs_path")},
+            "AstWorkspace.v", _reflect_workspace,
+            opts={"dicts": {"_text_documents", "_notebook_documents", "_cell_in_notebook", "_folders", "_docs"}})
+    except Exception as e:
+        poison("AstWorkspace.v", repr(e))
+        raise
+
+
+# ----------------------------------------------------------------------------------------------
+# (G) feature_manager.py   (NOT translated: the thread() decorator, wrap_with_server, assign_help_attrs,
+#     assign_thread_attr - they change attributes of function objects, which have identity; the calls of the
+#     last three from the decorators are RECORDED)
+
+FEATURE_CONSTANTS = {"ATTR_EXECUTE_IN_THREAD": "execute_in_thread", "ATTR_COMMAND_TYPE": "command",
+                     "ATTR_FEATURE_TYPE": "feature", "ATTR_REGISTERED_NAME": "reg_name",
+                     "ATTR_REGISTERED_TYPE": "reg_type", "PARAM_LS": "ls"}
+
+
+def _reflect_features():
+    import inspect, itertools, typing, logging
+    c = importlib.import_module("pygls.constants")
+    m = importlib.import_module("pygls.feature_manager")
+    x = importlib.import_module("pygls.exceptions")
+    lsp = importlib.import_module("pygls.lsp")
+    for k, v in FEATURE_CONSTANTS.items():
+        if getattr(c, k) != v or getattr(m, k) is not getattr(c, k):
+            raise TranslateError(f"pygls.constants.{k} is not {v!r}")
+    if m.inspect is not inspect or m.itertools is not itertools or m.get_type_hints is not typing.get_type_hints \
+            or not isinstance(m.logger, logging.Logger):
+        raise TranslateError("inspect / itertools / get_type_hints / logger are not the standard ones")
+    for n in ("ValidationError", "FeatureAlreadyRegisteredError", "CommandAlreadyRegisteredError"):
+        if getattr(m, n) is not getattr(x, n) or not issubclass(getattr(x, n), Exception):
+            raise TranslateError(f"{n} is not pygls.exceptions.{n}")
+    if m.is_instance is not lsp.is_instance or m.get_method_options_type is not lsp.get_method_options_type:
+        raise TranslateError("is_instance / get_method_options_type are not those of pygls.lsp")
+
+
+FEATURE_FUNCTIONS = [(None, "get_help_attrs"), (None, "has_ls_param_or_annotation"), (None, "is_thread_function"),
+                     ("FeatureManager", "command"), ("FeatureManager", "feature")]
+
+
+def gen_features():
+    imp = lambda mod: (lambda b: b == ("import", mod, None))
+    co = lambda n: _is_from("pygls.constants", n)
+    ex = lambda n: _is_from("pygls.exceptions", n)
+    isdef = lambda b: b == ("def",)
+    table = {"inspect": imp("inspect"), "itertools": imp("itertools"),
+             "get_type_hints": _is_from("typing", "get_type_hints"), "logger": _is_logger,
+             "get_method_options_type": _is_from("pygls.lsp", "get_method_options_type"),
+             "is_instance": _is_from("pygls.lsp", "is_instance"),
+             # module-level functions that change attributes of function objects: their calls are recorded
+             "assign_help_attrs": isdef, "wrap_with_server": isdef}
+    table.update({k: co(k) for k in FEATURE_CONSTANTS})
+    table.update({k: ex(k) for k in ("ValidationError", "FeatureAlreadyRegisteredError", "CommandAlreadyRegisteredError")})
+    try:
+        return translate_module(
+            "pygls.feature_manager", FEATURE_FUNCTIONS, table, "AstFeatures.v", _reflect_features,
+            opts={"stateful": True, "dicts": {"_features", "_commands", "_feature_options"},
+                  "constants": FEATURE_CONSTANTS, "effect_functions": {"assign_help_attrs", "wrap_with_server"}})
+    except Exception as e:
+        poison("AstFeatures.v", repr(e))
+        raise
+
+
 GENERATORS = {"codec": gen_codec, "exceptions": gen_exceptions, "uris": gen_uris, "doc": gen_doc,
-              "progress": gen_progress}
+              "progress": gen_progress, "workspace": gen_workspace, "features": gen_features}
 
 if __name__ == "__main__":
     which = sys.argv[1:] or ["codec"]
